@@ -38,9 +38,13 @@ def readDir (m : FMap) (path : Str) : Res (List Str) :=
     if e.ftype = .file then fail .other
     else .ok (m.keys.filterMap (childName path))
 
+/-- `ensure_has_parent` (memory.rs): evaluated under the same write lock as the update; the
+parent must be an existing directory -/
 def ensureHasParent (m : FMap) (path : Str) : Res Unit :=
   if '/' ∈ path then
-    if m.contains (parentInternal path) then .ok () else fail .other
+    match m.find? (parentInternal path) with
+    | some e => if e.ftype = .dir then .ok () else fail .other
+    | none => fail .other
   else fail .other
 
 def createDir (m : FMap) (path : Str) : Res Unit × FMap :=
